@@ -12,7 +12,7 @@ MANIFEST = {
             "not READY at the locked test which is reached only with now >= deadline, each SUCCESS consumes exactly one "
             "wake-up, a timed-out waiter is not queued afterwards (C19_timeout_verdict); pop_wait/pop_timedwait loops of "
             "fifo.c/randws.c/fifo_wait.c with concurrent pushers, consumers and clock: no unit lost or duplicated "
-            "(C19_popwait_no_loss), NULL only after the deadline (C19_popwait_not_early), return within one iteration once "
+            "(C19_popwait_no_loss), a head-popping wait returns the oldest unit nobody else took (C19_popwait_fifo_order), NULL only after the deadline (C19_popwait_not_early) and only after the pool was seen empty (C19_popwait_null_saw_empty, C19_popwait_nonempty_never_null), return within one iteration once "
             "overdue (C19_popwait_returns, PARTIAL: real-time bounds of nanosleep/futex/pthread_cond_timedwait are outside "
             "the model). Tie: extracted models replayed against the real library under the virtual clock: 1..8 ULT/pthread "
             "timed/untimed waiters on one ABT_cond, exhaustive enqueue/signal/broadcast/timeout orders for small scopes + "
